@@ -5,6 +5,7 @@
 %vec = type <4 x i32>
 %arr = type [4 x %num]
 %fn = type void (%inner*, %num)
+%bool = type i1
 
 @g0 = global %inner zeroinitializer
 @g2 = global %num 7
@@ -12,9 +13,13 @@
 @g4 = global %fn* null
 @g5 = global %fp 1.5
 @g6 = global %vec zeroinitializer
+@flag = global %bool true
+@noflag = global %bool false
 
 define void @f(%inner* %p, %num %n) {
   %r = add %num %n, 1
   %s = getelementptr %inner, %inner* %p, i32 0, i32 0
+  %t = select %bool true, %num %n, %num 3
+  %u = and %bool false, true
   ret void
 }
